@@ -32,6 +32,9 @@ def run(tier, seed, replay_rows=None):
                "source; every (rate, output) pair is one spec step; non-trivial = jitter != 0; distinct by content hash")
     ck.assumptions = ["one part in 10^4 of float slack on the rounding boundary",
                       "balance bound is the closed-form fixed point (j*rmax+1/2)/(1-j), checked for |j| < 100 %"]
+    # unbounded: for EVERY jitter in [0, 100 %) (0.01 % steps), every rate in Nat and any number of ticks the
+    # carry is exact and the balance stays within the closed-form bound (Apalache, inductive invariant)
+    vlib.inductive(ck, "JitterInd", mutant="JitterIndMut")
     vlib.flow(ck, mcs=[("Jitter", "MC_Jitter.cfg", dict(workers=8, timeout=300))],
               sub="c13", trace_module="Trace_Jitter", trace_cfg="Trace_Jitter.cfg", trace_file="c13.ndjson",
               key_of=key_of, nontrivial=lambda t: t["J"] != 0,
